@@ -36,24 +36,24 @@ Qed.
 
 (* a plain call of a script function with the right number of arguments: the arguments, in order,
    then the call (the direct path and the reflect path have the same order) *)
-Theorem call_evaluates_arguments_then_calls : forall rec c cl args s,
+Theorem call_evaluates_arguments_then_calls : forall cancel_at rec c cl args s,
   nth_error (st_closures (r_st s)) c = Some cl -> cl_vararg cl = false ->
   length (cl_params cl) = length args ->
-  call_function rec (VFunc c) args false false s =
-    eval_rvals rec args s [] (fun argv s1 => rec (CApply (VFunc c) argv false) (set_rv s1 rv_nil)).
+  call_function cancel_at rec (VFunc c) args false false s =
+    eval_rvals rec args s [] (fun argv s1 => call_finish cancel_at rec (VFunc c) argv false s1).
 Proof.
-  intros rec c cl args s Hc Hv Hl. unfold call_function. rewrite Hc, Hv. cbv zeta.
+  intros cancel_at rec c cl args s Hc Hv Hl. unfold call_function. rewrite Hc, Hv. cbv zeta.
   rewrite Hl, Nat.eqb_refl. reflexivity.
 Qed.
 
 (* a call rejected for a wrong argument count evaluates no operand: the state is untouched *)
-Theorem wrong_argument_count_evaluates_nothing : forall rec c cl args s,
+Theorem wrong_argument_count_evaluates_nothing : forall cancel_at rec c cl args s,
   nth_error (st_closures (r_st s)) c = Some cl -> cl_vararg cl = false ->
   1 <= length (cl_params cl) -> length (cl_params cl) <> length args ->
-  call_function rec (VFunc c) args false false s =
+  call_function cancel_at rec (VFunc c) args false false s =
     arity_error (length (cl_params cl)) (length args) s.
 Proof.
-  intros rec c cl args s Hc Hv H1 Hne. unfold call_function. rewrite Hc, Hv. cbv zeta.
+  intros cancel_at rec c cl args s Hc Hv H1 Hne. unfold call_function. rewrite Hc, Hv. cbv zeta.
   destruct (Nat.eqb_spec (length (cl_params cl)) (length args)); [contradiction|]. cbn [andb negb].
   destruct (length (cl_params cl) <? 1) eqn:E; [apply Nat.ltb_lt in E; lia|]. reflexivity.
 Qed.
